@@ -20,12 +20,14 @@ Definition enc_out (r : result out) : tree :=
 
 Definition enc_key (k : Z) (o : wopts) : tree :=
   TNode 2 [(TInt k, TInt (Z.b2z (wo_rel o))); (TInt (Z.b2z (wo_fit o)), TInt (Z.b2z (wo_dims o)));
-           (TNone, wo_lang o); (TNone, match wo_pos o with Some p => TInt p | None => TNone end)].
+           (TNone, wo_lang o); (TNone, match wo_pos o with Some p => TInt p | None => TNone end);
+           (TNone, TInt (Z.b2z (wo_inline o)))].
 
 Lemma enc_key_inj : forall k o k' o', enc_key k o = enc_key k' o' -> k = k' /\ o = o'.
 Proof.
-  intros k [r f d l p] k' [r' f' d' l' p'] H. unfold enc_key in H. cbn [wo_rel wo_fit wo_dims wo_lang wo_pos] in H.
-  injection H as Hk Hr Hf Hd Hl Hp. split; [exact Hk|].
+  intros k [r f d l p q] k' [r' f' d' l' p' q'] H. unfold enc_key in H. cbn [wo_rel wo_fit wo_dims wo_lang wo_pos wo_inline] in H.
+  injection H as Hk Hr Hf Hd Hl Hp Hq. split; [exact Hk|].
+  assert (q = q') by (destruct q, q'; simpl in Hq; congruence).
   assert (r = r') by (destruct r, r'; simpl in Hr; congruence).
   assert (f = f') by (destruct f, f'; simpl in Hf; congruence).
   assert (d = d') by (destruct d, d'; simpl in Hd; congruence).
